@@ -217,7 +217,21 @@ impl Session {
                 }
 
                 return if self.fcnt_up == 0xFFFF_FFFF {
-                    // if the FCnt is used up, the session has expired
+                    // if the FCnt is used up, the session has expired; the frame has been
+                    // accepted all the same, so its application payload is still delivered
+                    if let (Some(fport), FrmPayload::Data(data)) =
+                        (decrypted.f_port(), decrypted.frm_payload())
+                    {
+                        #[cfg(feature = "certification")]
+                        let deliver = !certification.fport(fport);
+                        #[cfg(not(feature = "certification"))]
+                        let deliver = true;
+                        #[cfg(feature = "multicast")]
+                        let deliver = deliver && !multicast.is_remote_setup_port(fport);
+                        if deliver {
+                            let _ = dl.push(Downlink { data: Vec::from_slice(data).unwrap(), fport });
+                        }
+                    }
                     Response::SessionExpired
                 } else {
                     // we can always increment fcnt_up when we receive a downlink
